@@ -2,7 +2,7 @@
    Statements only; every proof is [exact lemma].  valid_md is the calendar predicate
    (1<=m<=12, 1<=d<=DAYS_PER_MONTH[m]) over the tables generated from date.rs. *)
 From JV Require Import Bytes Tables U64Swar Scalar Date.
-From JV.proofs Require Import DateProofs.
+From JV.proofs Require Import DateProofs DateProofs2.
 Open Scope Z_scope.
 
 (* to_binary / from_binary are mutually inverse for every date the binary format can express *)
@@ -21,3 +21,26 @@ Print Assumptions C13_datehour_bin_inverse.
 (* non-vacuity: a concrete date meets the hypotheses *)
 Example C13_nonvacuous : -5000 <= 1444 <= 32767 /\ valid_md 11 11 = true.
 Proof. split; [lia | reflexivity]. Qed.
+
+(* over the whole i32 range the four from_binary entry points never reach a panic site
+   (in particular never the `unreachable!()` arm of month_day_from_julian), and whatever they
+   accept re-encodes to the same day (Date: the hour s % 24 is dropped) / same day and hour *)
+Theorem C13_from_binary_total : forall s, in_i32 s = true ->
+  is_crash (date_from_binary s) = false /\ is_crash (datehour_from_binary s) = false /\
+  is_crash (date_from_binary_heuristic s) = false /\ is_crash (datehour_from_binary_heuristic s) = false /\
+  (forall r, date_from_binary s = Ok (Some r) -> date_to_binary r = Ok (s - Z.rem s 24)) /\
+  (forall r, datehour_from_binary s = Ok (Some r) -> datehour_to_binary r = Ok s).
+Proof. exact from_binary_total. Qed.
+Print Assumptions C13_from_binary_total.
+
+(* non-vacuity: 56379360 = 1436.1.1 (the crate's own doc example) is accepted; a negative multiple
+   of 24*365 is accepted too (year -5001) and still re-encodes to itself *)
+Example C13_from_binary_nonvacuous :
+  in_i32 56379360 = true /\ (exists r, date_from_binary 56379360 = Ok (Some r)) /\
+  (exists r, datehour_from_binary 56379371 = Ok (Some r)) /\
+  (exists r, date_from_binary (-8760) = Ok (Some r) /\ date_to_binary r = Ok (-8760)).
+Proof.
+  split; [vm_compute; reflexivity|]. split; [eexists; vm_compute; reflexivity|].
+  split; [eexists; vm_compute; reflexivity|].
+  exists (mkraw (-5001) 4224). split; vm_compute; reflexivity.
+Qed.
